@@ -85,6 +85,10 @@ pub const RULES: &[(&str, &[&str])] = &[
     ("transient.child_not_dropped", &["C18"]),
     ("transient.bad_post_action", &["C18"]),
     ("transient.map", &["C18"]),
+    ("signal.mask_mismatch", &["C19"]),
+    ("signal.normal_disposition", &["C19"]),
+    ("signal.wrong_info", &["C19"]),
+    ("signal.unexpected_event", &["C19", "C01"]),
     ("stream.after_end", &["C10"]),
     ("stream.items_left", &["C10", "C02"]),
     ("stream.wrong_item", &["C10", "C01"]),
